@@ -66,6 +66,15 @@ prop("C20", "RL (no stuck cycle path) + ranking variable on find_diff_start/find
     gates("C20"),
 ], [lambda p, r: rl.rule_rl(p, r)])
 
+prop("C02", "RG gates of the replace algorithm (validation through close(), open-depth guards, text merging, range cutting), RU on the text cuts", [gates("C02"), lambda p, r: ru.rule_ru(p, r, files=("prosemirror/model/fragment.py", "prosemirror/model/node.py"))])
+prop("C04", "RG gates of history bookkeeping and of the inverse constructions", [gates("C04")])
+prop("C07", "RG gates: each validity predicate contains the conjuncts of the definition of validity", [gates("C07")])
+prop("C11", "RG gates of the fitter (mark filter on placement, isolating barrier), RT on NodeType.allowed_marks", [gates("C11"), lambda p, r: rt.rule_rt(p, r, only={"prosemirror/model/schema.py::NodeType.allowed_marks"})])
+prop("C13", "RG gates of the mark planners (coalescing conditions, permission), RT on Mark.add_to_set, RU on clear_incompatible", [gates("C13"), lambda p, r: rt.rule_rt(p, r, only={"prosemirror/model/mark.py::Mark.add_to_set"}), lambda p, r: ru.rule_ru(p, r, files=("prosemirror/transform/transform.py",))])
+prop("C15", "RG gates of the fill and wrapper searches (generatable guard, seen-set discipline, BFS order)", [gates("C15")])
+prop("C16", "RG gates: merge guards of ReplaceStep / AddMarkStep / RemoveMarkStep", [gates("C16")])
+prop("C17", "RG gates: keep/drop conditions of every Step.map", [gates("C17")])
+
 
 def run(pid: str, tier: str, t0: float) -> int:
     spec = PROPS[pid]
